@@ -32,6 +32,43 @@ CKey KeyOf(const std::string& name)
     CKey key; key.Set(k.begin(), k.end(), true);
     return key;
 }
+// The encodings of a public key (X, Y) the model distinguishes: "c" 02/03|X, "u" 04|X|Y, "h" 06/07|X|Y (header = parity of Y): all parse to the
+// same point; "hx" hybrid with the wrong parity header, "ux" 04|X|Y' with Y' off the curve and the low bit of Y: both rejected by the parser.
+std::vector<unsigned char> KeyBytes(const std::string& name, const std::string& enc)
+{
+    const CPubKey c = KeyOf(name).GetPubKey();
+    if (enc == "c") return ToByteVector(c);
+    CPubKey u = c; if (!u.Decompress()) throw std::runtime_error("decompress failed");
+    std::vector<unsigned char> b = ToByteVector(u);
+    if (b.size() != 65 || b[0] != 4) throw std::runtime_error("unexpected uncompressed key");
+    if (enc == "u") return b;
+    if (enc == "h") { b[0] = 6 | (b[64] & 1); return b; }
+    if (enc == "hx") { b[0] = 6 | ((b[64] & 1) ^ 1); if (CPubKey(b).IsFullyValid()) throw std::runtime_error("hx key parses"); return b; }
+    if (enc == "ux") {
+        for (size_t pos = 40; pos < 60; ++pos) { auto v = b; v[pos] ^= 0x5a; if (!CPubKey(v).IsFullyValid() && CPubKey(v).IsValid()) return v; }
+        throw std::runtime_error("could not build an off-curve key");
+    }
+    throw std::runtime_error("unknown key encoding " + enc);
+}
+// (r, s) -> (r, n - s): the other serialisation of the same ECDSA signature (as in src/test/script_tests.cpp)
+void NegateSignatureS(std::vector<unsigned char>& vchSig)
+{
+    std::vector<unsigned char> r(vchSig.begin() + 4, vchSig.begin() + 4 + vchSig[3]);
+    std::vector<unsigned char> s(vchSig.begin() + 6 + vchSig[3], vchSig.begin() + 6 + vchSig[3] + vchSig[5 + vchSig[3]]);
+    static const unsigned char order[33] = {0x00, 0xFF, 0xFF, 0xFF, 0xFF, 0xFF, 0xFF, 0xFF, 0xFF, 0xFF, 0xFF, 0xFF, 0xFF, 0xFF, 0xFF, 0xFF, 0xFE,
+                                            0xBA, 0xAE, 0xDC, 0xE6, 0xAF, 0x48, 0xA0, 0x3B, 0xBF, 0xD2, 0x5E, 0x8C, 0xD0, 0x36, 0x41, 0x41};
+    while (s.size() < 33) s.insert(s.begin(), 0x00);
+    int carry = 0;
+    for (int p = 32; p >= 1; p--) { int n = (int)order[p] - s[p] - carry; s[p] = (n + 256) & 0xFF; carry = (n < 0); }
+    if (carry) throw std::runtime_error("negate S: carry");
+    if (s.size() > 1 && s[0] == 0 && s[1] < 0x80) s.erase(s.begin());
+    vchSig.clear();
+    vchSig.push_back(0x30); vchSig.push_back(4 + r.size() + s.size());
+    vchSig.push_back(0x02); vchSig.push_back(r.size()); vchSig.insert(vchSig.end(), r.begin(), r.end());
+    vchSig.push_back(0x02); vchSig.push_back(s.size()); vchSig.insert(vchSig.end(), s.begin(), s.end());
+}
+CScript CkScript() { return CScript() << OP_CHECKSIG; }
+CScript MsEncScript() { return CScript() << OP_2 << KeyBytes("K1", "ux") << KeyBytes("K1", "u") << OP_2 << OP_CHECKMULTISIG; }
 CScript WshEqScript() { return CScript() << OP_1 << OP_EQUAL; }
 CScript MsScript() { return CScript() << OP_2 << ToByteVector(KeyOf("K1").GetPubKey()) << ToByteVector(KeyOf("K2").GetPubKey()) << OP_2 << OP_CHECKMULTISIG; }
 CScript SpkOfClass(const std::string& cls)
@@ -45,6 +82,9 @@ CScript SpkOfClass(const std::string& cls)
     if (cls == "wpkh") return GetScriptForDestination(WitnessV0KeyHash(KeyOf("K1").GetPubKey()));
     if (cls == "wsheq") return GetScriptForDestination(WitnessV0ScriptHash(WshEqScript()));
     if (cls == "ms") return GetScriptForDestination(WitnessV0ScriptHash(MsScript()));
+    if (cls == "wshck") return GetScriptForDestination(WitnessV0ScriptHash(CkScript()));
+    if (cls == "shck") return GetScriptForDestination(ScriptHash(CkScript()));
+    if (cls == "msenc") return MsEncScript();
     throw std::runtime_error("bad coin class " + cls);
 }
 
@@ -104,7 +144,10 @@ struct World {
     std::map<int, CMutableTransaction> body;      // model txid -> transaction without scriptSig / witness
     std::map<int, SigCtx> sigctx;                 // model txid -> what its (single) signature-checking input commits to
     std::map<int, std::string> cls_of;            // model txid -> class of the spent coin
-    std::set<std::pair<std::string, int>> sig_ids; // every signature (key, digest txid) mentioned in the universe
+    std::vector<int> dg;                          // digest id of each (twins share it)
+    std::map<std::string, std::vector<unsigned char>> sig_bytes;   // every signature of the universe: "sp:sd:sht:senc" -> bytes without the hash type
+    std::map<std::string, CPubKey> key_forms;     // every public key encoding of the universe: "p:enc" -> the key as CPubKey holds it
+    std::map<std::string, uint256> digests;       // every digest: "dg:ht"
     std::set<std::vector<std::string>> flagsets;  // the flag sets lookups can be made under
     std::set<int> legacy;
 
@@ -152,31 +195,45 @@ struct World {
     {
         const int t = op[0].getInt<int>(), i = op[1].getInt<int>();
         if (t == 0) return COutPoint(g_base.funding->GetHash(), i - 1);
+        if (!body.count(t)) throw std::runtime_error("parent precedes child in the universe");
         return COutPoint(Txid::FromUint256(CTransaction(body.at(t)).GetHash().ToUint256()), i - 1);
     }
-    uint256 Digest(int d) { const SigCtx& c = sigctx.at(d); return SignatureHash(c.script_code, body.at(d), 0, SIGHASH_ALL, c.amount, c.sv); }
-    // the signature the model calls [sp, sd]: made with key sp over the digest of txid sd (without the hash type byte)
-    std::vector<unsigned char> SigBytes(const std::string& sp, int sd)
+    static int HashType(const std::string& ht) { if (ht == "all") return SIGHASH_ALL; if (ht == "none") return SIGHASH_NONE; throw std::runtime_error("hash type " + ht); }
+    uint256 Digest(int d, const std::string& ht) { const SigCtx& c = sigctx.at(d); return SignatureHash(c.script_code, body.at(d), 0, HashType(ht), c.amount, c.sv); }
+    // the signature the model calls [sp, sd, sht, senc]: made with key sp over the digest of sd under hash type sht, low or high S (without the hash type byte)
+    static std::string SigId(const UniValue& g) { return g["sp"].get_str() + ":" + std::to_string(g["sd"].getInt<int>()) + ":" + g["sht"].get_str() + ":" + g["senc"].get_str(); }
+    const std::vector<unsigned char>& SigBytes(const UniValue& g)
     {
+        const std::string id = SigId(g);
+        auto it = sig_bytes.find(id);
+        if (it != sig_bytes.end()) return it->second;
         std::vector<unsigned char> sig;
-        if (!KeyOf(sp).Sign(Digest(sd), sig)) throw std::runtime_error("signing failed");
-        return sig;
+        if (!KeyOf(g["sp"].get_str()).Sign(Digest(g["sd"].getInt<int>(), g["sht"].get_str()), sig)) throw std::runtime_error("signing failed");
+        if (g["senc"].get_str() == "high") NegateSignatureS(sig); else if (g["senc"].get_str() != "low") throw std::runtime_error("bad senc");
+        return sig_bytes[id] = sig;
     }
     std::vector<unsigned char> SigPush(const UniValue& g)
     {
-        auto s = SigBytes(g["sp"].get_str(), g["sd"].getInt<int>()); s.push_back((unsigned char)SIGHASH_ALL);
+        auto s = SigBytes(g); s.push_back((unsigned char)HashType(g["ht"].get_str()));
         return s;
+    }
+    std::vector<unsigned char> KeyPush(const UniValue& g)
+    {
+        auto b = KeyBytes(g["p"].get_str(), g["enc"].get_str());
+        key_forms.emplace(g["p"].get_str() + ":" + g["enc"].get_str(), CPubKey(b));
+        return b;
     }
     void BuildUniverse()
     {
         const UniValue& U = g_uni["universe"];
-        txu.resize(U.size() + 1); tid.assign(U.size() + 1, 0);
+        txu.resize(U.size() + 1); tid.assign(U.size() + 1, 0); dg.assign(U.size() + 1, 0);
         // pass 1: bodies (twins share one), in universe order so that parents precede children
         for (size_t t = 1; t <= U.size(); ++t) {
             const UniValue& T = U[t - 1];
-            const int d = T["tid"].getInt<int>();
-            tid[t] = d;
+            const int d = T["dg"].getInt<int>();
+            tid[t] = T["tid"].getInt<int>(); dg[t] = d;
             if (body.count(d)) continue;
+            if (d != tid[t]) throw std::runtime_error("the first transaction of a digest class names it");
             if (T["ins"].size() != 1) throw std::runtime_error("universe transactions have one input");
             CMutableTransaction m; m.version = 1; m.nLockTime = 0;
             m.vin.emplace_back(OutPointOf(T["ins"][0]));
@@ -191,38 +248,64 @@ struct World {
             if (cls == "wpkh") sigctx[d] = {GetScriptForDestination(PKHash(KeyOf("K1").GetPubKey())), amount, SigVersion::WITNESS_V0};
             else if (cls == "ms") sigctx[d] = {MsScript(), amount, SigVersion::WITNESS_V0};
             else if (cls == "p2pk") sigctx[d] = {SpkOfClass("p2pk"), amount, SigVersion::BASE};
+            else if (cls == "wshck") sigctx[d] = {CkScript(), amount, SigVersion::WITNESS_V0};
+            else if (cls == "shck") sigctx[d] = {CkScript(), amount, SigVersion::BASE};
+            else if (cls == "msenc") sigctx[d] = {MsEncScript(), amount, SigVersion::BASE};
+            const bool wit = cls == "wpkh" || cls == "ms" || cls == "wshck";
+            if (T["sigs"].size() && T["sv"].get_str() != (wit ? "wit" : "base")) throw std::runtime_error("sv of the model does not fit the coin class " + cls);
         }
         // pass 2: scriptSig / witness of every variant
         for (size_t t = 1; t <= U.size(); ++t) {
             const UniValue& T = U[t - 1];
-            const int d = tid[t];
+            const int d = dg[t];
             CMutableTransaction m = body.at(d);
             const std::string cls = cls_of.at(d);
             const UniValue& sigs = T["sigs"];
             const bool wok = T["wok"].get_bool();
-            for (size_t k = 0; k < sigs.size(); ++k) sig_ids.insert({sigs[k]["sp"].get_str(), sigs[k]["sd"].getInt<int>()});
+            auto plain_key = [&](const UniValue& g, const char* k) { return g["p"].get_str() == k && g["enc"].get_str() == "c"; };
             auto& wit = m.vin[0].scriptWitness.stack;
             if (cls == "wsheq") {
                 const CScript ws = WshEqScript();
                 wit = {std::vector<unsigned char>{(unsigned char)(wok ? 1 : 2)}, std::vector<unsigned char>(ws.begin(), ws.end())};
             } else if (cls == "wpkh") {
-                if (sigs.size() != 1 || sigs[0]["p"].get_str() != "K1" || !wok) throw std::runtime_error("wpkh spend: one signature checked against K1");
-                wit = {SigPush(sigs[0]), ToByteVector(KeyOf("K1").GetPubKey())};
+                if (sigs.size() != 1 || !plain_key(sigs[0], "K1") || !wok) throw std::runtime_error("wpkh spend: one signature checked against K1");
+                wit = {SigPush(sigs[0]), KeyPush(sigs[0])};
             } else if (cls == "ms") {
                 // OP_CHECKMULTISIG compares the topmost signature with the topmost key first: model check 1 = (upper signature, K2), check 2 = (lower signature, K1)
-                if (sigs.size() != 2 || sigs[0]["p"].get_str() != "K2" || sigs[1]["p"].get_str() != "K1" || !wok) throw std::runtime_error("ms spend: checks against K2 then K1");
+                if (sigs.size() != 2 || !plain_key(sigs[0], "K2") || !plain_key(sigs[1], "K1") || !wok) throw std::runtime_error("ms spend: checks against K2 then K1");
+                KeyPush(sigs[0]); KeyPush(sigs[1]);
                 const CScript ws = MsScript();
                 wit = {std::vector<unsigned char>{}, SigPush(sigs[1]), SigPush(sigs[0]), std::vector<unsigned char>(ws.begin(), ws.end())};
             } else if (cls == "p2pk") {
-                if (sigs.size() != 1 || sigs[0]["p"].get_str() != "K1" || !wok) throw std::runtime_error("p2pk spend: one signature checked against K1");
+                if (sigs.size() != 1 || !plain_key(sigs[0], "K1") || !wok) throw std::runtime_error("p2pk spend: one signature checked against K1");
+                KeyPush(sigs[0]);
                 m.vin[0].scriptSig = CScript() << SigPush(sigs[0]);
-                // legacy: the scriptSig is part of the txid, so such a spend has neither twins nor children in the universe (checked below)
-                legacy.insert(d);
+                legacy.insert(tid[t]);
+            } else if (cls == "wshck") {
+                // the spender supplies the key: <sig> <key in the model's encoding> <witness script>
+                if (sigs.size() != 1 || !wok) throw std::runtime_error("wshck spend: one signature check");
+                const CScript ws = CkScript();
+                wit = {SigPush(sigs[0]), KeyPush(sigs[0]), std::vector<unsigned char>(ws.begin(), ws.end())};
+            } else if (cls == "shck") {
+                if (sigs.size() != 1 || !wok) throw std::runtime_error("shck spend: one signature check");
+                const CScript rs = CkScript();
+                m.vin[0].scriptSig = CScript() << SigPush(sigs[0]) << KeyPush(sigs[0]) << std::vector<unsigned char>(rs.begin(), rs.end());
+                legacy.insert(tid[t]);
+            } else if (cls == "msenc") {
+                // OP_CHECKMULTISIG compares the topmost signature with the topmost key (the last one of the script, K1 as "u") first, then the next with K1 as "ux"
+                if (sigs.size() != 2 || sigs[0]["p"].get_str() != "K1" || sigs[0]["enc"].get_str() != "u" || sigs[1]["p"].get_str() != "K1" || sigs[1]["enc"].get_str() != "ux" || !wok)
+                    throw std::runtime_error("msenc spend: checks against K1(u) then K1(ux)");
+                KeyPush(sigs[0]); KeyPush(sigs[1]);
+                m.vin[0].scriptSig = CScript() << OP_0 << SigPush(sigs[1]) << SigPush(sigs[0]);
+                legacy.insert(tid[t]);
             } else {
                 if (sigs.size() != 0 || !wok) throw std::runtime_error("plain spend with signatures / failing witness");
             }
-            if (legacy.count(d) && (T["ins"].size() != 1 || (int)t != d)) throw std::runtime_error("legacy spends have no twins");
+            // legacy: the scriptSig is part of the txid, so every variant has its own txid (and must say so), and none has children in the universe
+            if (legacy.count(tid[t]) && (int)t != tid[t]) throw std::runtime_error("scriptSig twins have different txids");
+            if (!legacy.count(tid[t]) && tid[t] != d) throw std::runtime_error("only scriptSig twins share a digest without sharing the txid");
             if (legacy.count(T["ins"][0][0].getInt<int>())) throw std::runtime_error("legacy spends have no children");
+            for (size_t k = 0; k < sigs.size(); ++k) { SigBytes(sigs[k]); for (const char* ht : {"all", "none"}) digests.emplace(std::to_string(d) + ":" + ht, Digest(d, ht)); }
             txu[t] = MakeTransactionRef(m);
             by_wtxid[txu[t]->GetWitnessHash().ToUint256()] = (int)t;
         }
@@ -236,6 +319,8 @@ struct World {
         if (why == "bad-txns-inputs-missingorspent" || why == "txn-already-known") return "noinputs";
         if (why == "txn-already-in-mempool" || why == "txn-same-nonwitness-data-in-mempool") return "dup";
         if (why == "bad-txns-BIP30") return "bip30";
+        if (why.rfind("insufficient fee", 0) == 0 || why == "txn-mempool-conflict" || why.rfind("replacement", 0) == 0 || why == "bip125-replacement-disallowed" ||
+            why.rfind("too many potential replacements", 0) == 0) return "conflict";
         return why;
     }
     std::shared_ptr<CBlock> MakeBlock(const UniValue& list)
@@ -309,17 +394,13 @@ struct World {
         return have;
     }
     static std::string EcStr(int w, const std::vector<std::string>& names) { std::string s = std::to_string(w) + "|"; for (auto& n : names) s += n + ","; return s; }
-    static std::string ScStr(const std::string& sp, int sd, const std::string& p, int d) { return sp + ":" + std::to_string(sd) + "|" + p + "|" + std::to_string(d); }
     std::set<std::string> SigCache()
     {
         std::set<std::string> have;
-        for (const auto& [sp, sd] : sig_ids) {
-            const auto sig = SigBytes(sp, sd);
-            for (const char* p : {"K1", "K2"}) for (const auto& [d, ctx] : sigctx) {
-                uint256 entry;
-                vc().m_signature_cache.ComputeEntryECDSA(entry, Digest(d), sig, KeyOf(p).GetPubKey());
-                if (vc().m_signature_cache.Get(entry, false)) have.insert(ScStr(sp, sd, p, d));
-            }
+        for (const auto& [sid, sig] : sig_bytes) for (const auto& [kid, key] : key_forms) for (const auto& [did, hash] : digests) {
+            uint256 entry;
+            vc().m_signature_cache.ComputeEntryECDSA(entry, hash, sig, key);
+            if (vc().m_signature_cache.Get(entry, false)) have.insert(sid + "|" + kid + "|" + did);
         }
         return have;
     }
@@ -338,7 +419,11 @@ std::set<std::string> ExpEc(const UniValue& ec)
 std::set<std::string> ExpSc(const UniValue& sc)
 {
     std::set<std::string> s;
-    for (size_t i = 0; i < sc.size(); ++i) s.insert(World::ScStr(sc[i]["s"][0].get_str(), sc[i]["s"][1].getInt<int>(), sc[i]["p"].get_str(), sc[i]["d"].getInt<int>()));
+    for (size_t i = 0; i < sc.size(); ++i) {
+        const UniValue& e = sc[i];
+        s.insert(e["s"][0].get_str() + ":" + std::to_string(e["s"][1].getInt<int>()) + ":" + e["s"][2].get_str() + ":" + e["s"][3].get_str() + "|" +
+                 e["p"][0].get_str() + ":" + e["p"][1].get_str() + "|" + std::to_string(e["d"][0].getInt<int>()) + ":" + e["d"][1].get_str());
+    }
     return s;
 }
 std::string Join(const std::set<std::string>& s) { std::string o; for (auto& x : s) o += x + " "; return o; }
